@@ -52,10 +52,25 @@ func (s *c32SeqStore) newBlock() *types.BlockDetail {
 }
 
 // grow appends n add records; with reorg, first deletes up to two tip blocks (delete records) and re-adds.
-func (s *c32SeqStore) grow(n int, reorg bool, bigKiB int) int64 {
+func (s *c32SeqStore) grow(n int, reorg bool, bigKiB int, flap bool) int64 {
 	s.mu.Lock()
 	defer s.mu.Unlock()
 	s.big = bigKiB * 1024
+	if flap {
+		// the chain reorganises away from its top blocks and back to the very same blocks: delete records followed by add
+		// records of the same hashes
+		var back []string
+		for k := 0; k < 2 && len(s.chain) > 1; k++ {
+			top := s.chain[len(s.chain)-1]
+			s.recs = append(s.recs, &types.BlockSequence{Hash: []byte(top), Type: types.DelBlock})
+			s.chain = s.chain[:len(s.chain)-1]
+			back = append([]string{top}, back...)
+		}
+		for _, h := range back {
+			s.chain = append(s.chain, h)
+			s.recs = append(s.recs, &types.BlockSequence{Hash: []byte(h), Type: types.AddBlock})
+		}
+	}
 	if reorg {
 		for k := 0; k < 2 && len(s.chain) > 1; k++ {
 			top := s.chain[len(s.chain)-1]
@@ -228,6 +243,8 @@ type c32Op struct {
 	N     int    `json:"n,omitempty"`
 	Reorg bool   `json:"reorg,omitempty"`
 	Minus bool   `json:"minusOne,omitempty"` // notify with -1, as disconnectBlock does
+	Flap  bool   `json:"flap,omitempty"`     // before growing, the two top blocks are deleted and the same blocks added again
+	At    int    `json:"at,omitempty"`       // sub with Start: which record of the log is the resume point (1 + At mod last)
 	Big   int    `json:"bigKiB,omitempty"`   // stored size the sequence store reports for these blocks (batches are cut at 1 MiB)
 	Name  string `json:"name,omitempty"`
 	Type  int32  `json:"type,omitempty"`
@@ -262,7 +279,7 @@ func c32Gen(t *rapid.T) c32Case {
 		c.Scripts[n] = sc
 	}
 	c.Ops = append(c.Ops, c32Op{Op: "grow", N: rapid.IntRange(2, 6).Draw(t, "n0")})
-	c.Ops = append(c.Ops, c32Op{Op: "sub", Name: "a", Type: int32(rapid.IntRange(0, 1).Draw(t, "typeA")), Start: rapid.Bool().Draw(t, "startA")})
+	c.Ops = append(c.Ops, c32Op{Op: "sub", Name: "a", Type: int32(rapid.IntRange(0, 1).Draw(t, "typeA")), Start: rapid.Bool().Draw(t, "startA"), At: rapid.IntRange(0, 200).Draw(t, "atA")})
 	n := rapid.IntRange(3, 8).Draw(t, "nops")
 	for i := 0; i < n; i++ {
 		switch rapid.SampledFrom([]string{"grow", "grow", "grow", "sub", "resub", "failresub"}).Draw(t, "op") {
@@ -271,9 +288,9 @@ func c32Gen(t *rapid.T) c32Case {
 			c.Ops = append(c.Ops, c32Op{Op: "failresub", Name: rapid.SampledFrom(names).Draw(t, "whoFR"), N: rapid.IntRange(1, 12).Draw(t, "nFR")})
 		case "grow":
 			c.Ops = append(c.Ops, c32Op{Op: "grow", N: rapid.IntRange(1, 25).Draw(t, "n"), Reorg: rapid.IntRange(0, 3).Draw(t, "reorg") == 0, Minus: rapid.IntRange(0, 4).Draw(t, "minus") == 0,
-				Big: rapid.SampledFrom([]int{0, 0, 0, 150, 300, 400, 600, 1100}).Draw(t, "bigKiB")})
+				Big: rapid.SampledFrom([]int{0, 0, 0, 150, 300, 400, 600, 1100}).Draw(t, "bigKiB"), Flap: rapid.IntRange(0, 3).Draw(t, "flap") == 0})
 		case "sub":
-			c.Ops = append(c.Ops, c32Op{Op: "sub", Name: "b", Type: int32(rapid.IntRange(0, 1).Draw(t, "typeB")), Start: rapid.Bool().Draw(t, "startB")})
+			c.Ops = append(c.Ops, c32Op{Op: "sub", Name: "b", Type: int32(rapid.IntRange(0, 1).Draw(t, "typeB")), Start: rapid.Bool().Draw(t, "startB"), At: rapid.IntRange(0, 200).Draw(t, "atB")})
 		case "resub":
 			c.Ops = append(c.Ops, c32Op{Op: "resub", Name: rapid.SampledFrom(names).Draw(t, "who")})
 		}
@@ -282,7 +299,7 @@ func c32Gen(t *rapid.T) c32Case {
 	return c
 }
 
-func c32Run(t lib.TB, test string, c c32Case) (failThenOK, deactResume, resubInBackoff, sizeCut bool) {
+func c32Run(t lib.TB, test string, c c32Case) (failThenOK, deactResume, resubInBackoff, sizeCut, resumeAmbiguous bool) {
 	ss := &c32SeqStore{cfg: c32Cfg, blocks: map[string]*types.BlockDetail{}, sizes: map[string]int{}}
 	kv := &c32KV{m: map[string][]byte{}}
 	post := &c32Post{scripts: map[string][]bool{}}
@@ -308,7 +325,7 @@ func c32Run(t lib.TB, test string, c c32Case) (failThenOK, deactResume, resubInB
 	for _, op := range c.Ops {
 		switch op.Op {
 		case "grow":
-			last := ss.grow(op.N, op.Reorg, op.Big)
+			last := ss.grow(op.N, op.Reorg, op.Big, op.Flap)
 			if op.Minus {
 				p.UpdateSeq(-1)
 			} else {
@@ -321,16 +338,18 @@ func c32Run(t lib.TB, test string, c c32Case) (failThenOK, deactResume, resubInB
 			s := &types.PushSubscribeReq{Name: op.Name, URL: "http://verif.invalid/" + op.Name, Type: op.Type, Encode: "proto"}
 			resume[op.Name] = -1
 			if op.Start {
-				// resume after the first record of the log (LastSequence must be > 0 to be accepted)
+				// resume after a drawn record of the log (LastSequence must be > 0 to be accepted, and the record at that
+				// sequence must carry the given hash -- add or delete record alike)
 				lastSeq, _ := ss.LoadBlockLastSequence()
 				if lastSeq >= 1 {
-					r, _ := ss.GetBlockSequence(1)
+					at := 1 + int64(op.At)%lastSeq
+					r, _ := ss.GetBlockSequence(at)
 					h, _ := ss.GetBlockHeaderByHash(r.Hash)
-					s.LastSequence, s.LastHeight, s.LastBlockHash = 1, h.Height+1, fmt.Sprintf("0x%x", r.Hash)
-					if s.LastHeight == 0 {
-						s.LastHeight = 1
+					s.LastSequence, s.LastHeight, s.LastBlockHash = at, h.Height+1, fmt.Sprintf("0x%x", r.Hash)
+					resume[op.Name] = at
+					if n, err := ss.GetSequenceByHash(r.Hash); err == nil && n != at {
+						resumeAmbiguous = true // the same block also appears at another sequence of the log
 					}
-					resume[op.Name] = 1
 				}
 			}
 			if err := p.addSubscriber(s); err != nil {
@@ -352,7 +371,7 @@ func c32Run(t lib.TB, test string, c c32Case) (failThenOK, deactResume, resubInB
 				}
 			}
 			post.mu.Unlock()
-			p.UpdateSeq(ss.grow(op.N, false, 0))
+			p.UpdateSeq(ss.grow(op.N, false, 0, false))
 			// pacing only: wait (bounded) until that failed attempt was made, then re-register at once, inside the back-off
 			failedNow := false
 			for i := 0; i < 100 && !failedNow; i++ {
@@ -373,9 +392,9 @@ func c32Run(t lib.TB, test string, c c32Case) (failThenOK, deactResume, resubInB
 			if failedNow {
 				resubInBackoff = true
 			}
-			p.UpdateSeq(ss.grow(2, false, 0))
+			p.UpdateSeq(ss.grow(2, false, 0, false))
 			time.Sleep(200 * time.Millisecond)
-			p.UpdateSeq(ss.grow(1, false, 0))
+			p.UpdateSeq(ss.grow(1, false, 0, false))
 		case "resub":
 			if s := subs[op.Name]; s != nil {
 				if err := p.addSubscriber(s); err != nil {
@@ -458,7 +477,10 @@ func TestPropPushOrderedGapFree(t *testing.T) {
 	rapid.Check(t, func(t *rapid.T) {
 		c := c32Gen(t)
 		lib.Eval()
-		f, d, rb, sc := c32Run(t, "TestPropPushOrderedGapFree", c)
+		f, d, rb, sc, ra := c32Run(t, "TestPropPushOrderedGapFree", c)
+		if ra {
+			lib.Class("resume_point_block_appears_twice_in_log")
+		}
 		if sc {
 			lib.Class("payload_cut_by_size_limit")
 		}
